@@ -226,6 +226,30 @@ class CursorMod:
                     self.report("O-conserve/reverse", "reverse applied to a token stream that is not a vector", cur[2], sp)
                     return [(OK, UNIT, st)]
                 return [(OK, UNIT, I.write(st, place, ("abs", "cursor", newo, cur[3], cur[4], cur[5])))]
+            # ---- a double-ended queue filled in source order: its front is the next token
+            DQ = "alloc::collections::vec_deque::VecDeque::<T, A>::"
+            if c in (DQ + "front", DQ + "pop_front", DQ + "is_empty", DQ + "back", DQ + "pop_back"):
+                if cur[2] != "vecfwd" or c.endswith("back"):
+                    self.report("O-conserve/order", "tokens are taken from the wrong end of the sequence", "%s on %s" % (c, cur[2]), sp)
+                fwd = ("abs", "cursor", "fwd", cur[3], cur[4], cur[5])
+                place = self.cursor_place(I, st, a0)
+                s_f = I.write(st, place, fwd) if place else st
+                sub = {"front": "core::iter::adapters::peekable::Peekable::<I>::peek", "back": "core::iter::adapters::peekable::Peekable::<I>::peek",
+                       "pop_front": "core::iter::traits::iterator::Iterator::next", "pop_back": "core::iter::traits::iterator::Iterator::next",
+                       "is_empty": None}[c[len(DQ):]]
+                if sub is None:
+                    out = []
+                    for k, role, ncur in self.decide_head(cur):
+                        out.append((OK, ("bool", k == EOF), I.write(st, place, ncur) if place else st))
+                    return out
+                res = self.intrinsic(I, sub, args, s_f, n)
+                out = []
+                for ctl, v, s2 in res or []:
+                    c2 = self.get_cursor(I, s2, a0)
+                    if place and c2 is not None:
+                        s2 = I.write(s2, place, ("abs", "cursor", "vecfwd", c2[3], c2[4], c2[5]))
+                    out.append((ctl, v, s2))
+                return out
             # ---- peek
             if c in ("core::slice::<impl [T]>::last", "core::iter::adapters::peekable::Peekable::<I>::peek"):
                 if (c.endswith("last") and cur[2] != "rev") or (c.endswith("peek") and cur[2] != "fwd"):
